@@ -8,6 +8,7 @@ CONSTANTS
   PlusLocksKids = FALSE
   Scenario = "shrink"
   MaxTries = 4
+  LowestFree = FALSE
   OneOp = {1}
 PROPERTY Termination
 CHECK_DEADLOCK TRUE
